@@ -385,6 +385,38 @@ class C13:
                                                               "layers": ["%s level %d, %d x %r" % (kind, level, size, unit)]})
                 g.add("decode", "DECODE %d %s %s" % (tree, hdrs_field(hsw), hx(enc)))
                 groups.append(g)
+        # decoded lengths at and around powers of two and ten, every container, several kinds of content; deep stacks;
+        # many Content-Encoding fields
+        sweep = []
+        for L in sorted(set(v + d for v in (256, 512, 1024, 4096, 8192, 16384, 32768, 65536, 131072, 262144, 1048576, 100000) for d in (-1, 0, 1))):
+            for content in ("zeros", "text", "random"):
+                sweep.append((L, content))
+        for j, (L, content) in enumerate(sweep if tier != "quick" else rng.sample(sweep, 24)):
+            data = bytes(L) if content == "zeros" else (b"the quick brown fox jumps over the lazy dog\n" * (L // 44 + 1))[:L] if content == "text" else gen.rand_bytes(rng, L)
+            kind = rng.pick(["gzip", "zlib", "raw"])
+            level = rng.below(10)
+            d = raw_deflate(data, level)
+            enc = d if kind == "raw" else (zlib_wrap(d, data) if kind == "zlib" else gzip_wrap(d, data)[0])
+            hss = [(b"Content-Encoding", TOKEN_OF[kind])]
+            g = Group("sz%d" % j, "size-sweep", {"headers": [[a.hex(), b.hex()] for a, b in hss], "data": None, "data_len": len(data), "data_crc": zlib.crc32(data), "layers": ["%s level %d, %d bytes of %s" % (kind, level, L, content)]})
+            g.add("decode", "DECODE %d %s %s" % (tree, hdrs_field(hss), hx(enc)), {"nocmp": L > 140000 or (L > 70000 and content == "random")})
+            groups.append(g)
+        for j, depth in enumerate([5, 8, 10, 12, 16] if tier == "quick" else [5, 8, 10, 12, 16, 24, 32]):
+            data = rng.pick([b"", b"x", b"hello world " * 20, gen.rand_bytes(rng, 300)])
+            kinds = [rng.pick(["gzip", "zlib", "raw"]) for _ in range(depth)]
+            enc = data
+            for kd in kinds:
+                d = raw_deflate(enc, rng.below(10))
+                enc = d if kd == "raw" else (zlib_wrap(d, enc) if kd == "zlib" else gzip_wrap(d, enc)[0])
+            toks = [TOKEN_OF[kd] for kd in kinds]
+            for fields in (1, depth):
+                if fields == 1:
+                    hss = [(b"Content-Encoding", b", ".join(toks))]
+                else:
+                    hss = [(gen.randcase(rng, b"Content-Encoding"), t) for t in toks]
+                g = Group("dp%d_%d" % (j, fields), "deep-stack", {"headers": [[a.hex(), b.hex()] for a, b in hss], "data": data.hex(), "data_len": len(data), "data_crc": zlib.crc32(data), "layers": ["%d layers in %d field(s): %s" % (depth, fields, "+".join(kinds))]})
+                g.add("decode", "DECODE %d %s %s" % (tree, hdrs_field(hss), hx(enc)))
+                groups.append(g)
         # the encoder specification of the C13 theorems, measured on real streams: the block description recovered from
         # zlib's output (every level, strategy, flush pattern; hand-rolled stored streams too) must satisfy Block.Ok,
         # re-encode to zlib's bytes bit for bit, and expand to the data -- asked of the model's compiled definitions;
